@@ -116,3 +116,8 @@ void vf_harness(void) { const char* b; int n; HttpMessage_write(b, n); VF_CANARY
     functions=['HttpMessage::write(const char*, int)'], trusted=['Socket::write contract (unit Socket_write); String::f("%x") prints the chunk size in hex (libc)'],
 )
 UNITS += [http_write]
+
+# receiving side of the exchange: the body/header reading loops of HttpMessage are C09's units; what they decide (each turn consumes input or ends, chunk framing
+# is consumed completely so that the next request on a kept-alive connection starts at its request line) is part of this property too
+from units.C09 import read_body_loop as _rbl, read_body_outer as _rbo, read_headers as _rh
+UNITS += [_rbl, _rbo, _rh]
